@@ -21,6 +21,9 @@ type c16Case struct {
 	Listing bool        `json:"listing"`
 	Short   int         `json:"short"` // >0: the original's buffer is this many bytes too small for the tail (Append must be refused)
 	Coda    []asmcat.Op `json:"coda"`  // calls made after Append on both emitters: they must keep behaving alike
+	// Sibling: a second clone of the original is alive at the same time; it receives a NOP and then every tail call
+	// right after the kept clone received it (one byte further on), and is discarded (a dry run of a variant)
+	Sibling bool `json:"sibling,omitempty"`
 }
 
 type emObs struct {
@@ -121,8 +124,16 @@ func c16Check(c c16Case) error {
 	}
 	atSplit := observe(a)
 	cl := a.Clone(make([]byte, needOf(tail)+16))
+	var sib *asm.Emitter
+	if c.Sibling {
+		sib = a.Clone(make([]byte, needOf(tail)+17))
+		sib.NOP()
+	}
 	for _, o := range tail {
 		asmcat.ApplyReal(cl, o)
+		if sib != nil {
+			asmcat.ApplyReal(sib, o)
+		}
 	}
 	// the clone is also listed and finalised: nothing done to it may show in the original
 	_ = observe(cl)
@@ -259,7 +270,7 @@ func init() {
 
 func TestC16(t *testing.T) {
 	rig.Main(t, "C16", "rapid: an emitter history (labels, references on both sides, data, comments, optional base, width assumptions, refused calls) x every kind of split point x listing on/off: "+
-		"the head goes to an emitter A, the tail to A.Clone(), then A.Append(clone); a direct emitter D receives the whole history.  Before Append A must equal its snapshot at the split on bytes, "+
+		"the head goes to an emitter A, the tail to A.Clone(), then A.Append(clone) (in a third of the cases a second clone of A receives the same tail one byte further on and is discarded); a direct emitter D receives the whole history.  Before Append A must equal its snapshot at the split on bytes, "+
 		"length, PC, flags, all labels and both listings although the clone was emitted into, listed and finalised; after Append A must equal D on all of these, on Finalize()'s verdict and on the "+
 		"finalized bytes; an Append that is 1..n bytes too large must panic and leave A unchanged.  Non-trivial = a label is defined on one side of the split and referenced on the other; distinct = hash(case).",
 		func(r *rig.Run) {
@@ -283,6 +294,10 @@ func TestC16(t *testing.T) {
 				if rapid.Bool().Draw(t, "with-coda") {
 					c.Coda = []asmcat.Op{{Kind: "comment", Text: "after append"}, {Kind: "ins", Method: "NOP"}, {Kind: "label", Label: "lbl"}, {Kind: "ins", Method: "BRA", Label: labelPoolName(rapid.IntRange(0, 7).Draw(t, "coda-label"))}}
 					c.Coda = c.Coda[:rapid.IntRange(1, 4).Draw(t, "coda-len")]
+				}
+				if rapid.IntRange(0, 2).Draw(t, "sibling") == 0 {
+					c.Sibling = true
+					ev.Class("a-second-clone-of-the-original-is-used-at-the-same-time-and-discarded")
 				}
 				if rapid.IntRange(0, 5).Draw(t, "short") == 0 {
 					c.Short = rapid.IntRange(1, 4).Draw(t, "short-by")
